@@ -5,9 +5,9 @@ Open Scope N_scope.
 
 (* The main file enters the parser only through its normalised token list: two contents with the
    same [parser_input] give the same parse result (AST, call graph), whatever else differs. *)
-Lemma parse_entry_tokens E depth stack path fe1 fe2 :
+Lemma parse_entry_tokens E depth stack inc path fe1 fe2 :
   parser_input (tokenize (fe_content fe1)) = parser_input (tokenize (fe_content fe2)) ->
-  parse_entry E depth stack path false fe1 = parse_entry E depth stack path false fe2.
+  parse_entry E depth stack inc path false fe1 = parse_entry E depth stack inc path false fe2.
 Proof. intro H. destruct depth as [|d]; [reflexivity|]. cbn [parse_entry]. rewrite H. reflexivity. Qed.
 
 (* ---------- getUsedFuncs: the kept set contains everything reachable (C09) ---------- *)
